@@ -67,8 +67,8 @@ func NewPubSub(key string, matcher matcher.Matcher, project, topic, format, code
 	if bufSize < 0 || flushMaxSize < 0 {
 		return nil, fmt.Errorf("pubsub(%s): bufSize and flushMaxSize can not be negative", key)
 	}
-	if flushMaxWait <= 0 {
-		return nil, fmt.Errorf("pubsub(%s): flushMaxWait must be > 0", key)
+	if flushMaxWait <= 0 || int64(flushMaxWait) > maxFlushMaxWait {
+		return nil, fmt.Errorf("pubsub(%s): flushMaxWait must be > 0 and at most %d", key, maxFlushMaxWait)
 	}
 	r := &PubSub{
 		baseRoute: baseRoute{sync.Mutex{}, atomic.Value{}, key},
